@@ -956,7 +956,8 @@ class Tables:
             st = b["state"]
             if o["k"] == "parse":
                 r = b["res"]
-                fl = st["pctx"][o["f"]][1]
+                pc = st["pctx"][o["f"]]
+                fl = pc[1] if pc else 0      # no context at all after a read: left to the comparisons
                 self.walk[(o["f"], o["t"], 0)] = [o["f"], texts[o["f"]][o["t"]], 0,
                                                   [enc_pentry(p) for p in
                                                    events_of(r["pent"], r["jid"],
@@ -974,7 +975,7 @@ class Tables:
             self.walk[(f, t, 1)] = [f, texts[f][t], 1,
                                     [enc_pentry(p) for p in events_of(r["pent"], r["jid"],
                                                                       eff_counter(st, f))],
-                                    int(st["pctx"][f][1])]
+                                    int(st["pctx"][f][1]) if st["pctx"][f] else 0]
 
     def op_texts(self, o):
         k = o["k"]
